@@ -128,6 +128,29 @@ func runC04(c *core.Ctx) {
 		poly := s2.PolygonFromLoops([]*s2.Loop{nl.Make()})
 		polyInv := s2.PolygonFromLoops([]*s2.Loop{nl.Make()})
 		polyInv.Invert()
+		// history variants (the property says "before or after the index exists"): a loop whose index was
+		// forced and used and which was then inverted must answer like its inverse
+		invAfterUse := nl.Make()
+		invAfterUse.VerifIndex().Build()
+		_ = invAfterUse.ContainsPoint(probes[0])
+		invAfterUse.Invert()
+		twiceInverted := nl.Make()
+		_ = twiceInverted.ContainsPoint(probes[0])
+		twiceInverted.Invert()
+		_ = twiceInverted.ContainsPoint(probes[len(probes)/2])
+		twiceInverted.Invert()
+		// ... and the very first query after the inversion matters (it is answered before anything has
+		// rebuilt the index): a fresh history per probe for a few probes far from the loop
+		for k := 0; k < 6 && k < len(structural); k++ {
+			p := structural[(k*37+li)%len(structural)]
+			h := nl.Make()
+			h.VerifIndex().Build()
+			_ = h.ContainsPoint(probes[0])
+			h.Invert()
+			if got := h.ContainsPoint(p); got != refInv.Contains(p) {
+				c.Violate("paths", "wrong-answer", "the first query after inverting a loop whose index had been built and used differs from the exact parity of the inverse loop", []int{li, -1 - k}, map[string]any{"loop": nl.Name, "p": ptStr(p)})
+			}
+		}
 		fresh := nl.Make() // never indexed explicitly; ContainsPoint may build its index lazily
 		built := nl.Make()
 		built.VerifIndex().Build()
@@ -165,6 +188,12 @@ func runC04(c *core.Ctx) {
 					c.Violate("paths", "wrong-answer", "ContainsPointQuery.ContainingShapes differs from the exact crossing parity", cas, detail())
 				}
 				// loop and inverse, polygon and complement: exactly one contains p
+				if invAfterUse.ContainsPoint(p) == want {
+					c.Violate("paths", "wrong-answer", "a loop inverted after its index had been built and used does not answer like the inverse loop", cas, detail())
+				}
+				if twiceInverted.ContainsPoint(p) != want {
+					c.Violate("paths", "wrong-answer", "a loop inverted twice (with queries in between) does not answer like the original loop", cas, detail())
+				}
 				if inv.ContainsPoint(p) == want {
 					c.Violate("tiling", "wrong-answer", "a loop and its inverse do not contain a point exactly once", cas, detail())
 				}
